@@ -182,6 +182,8 @@ def fmapEv (c : FmapChan.Cfg) (s : FmapChan.State) (e : Ev) : R (FmapChan.State 
   | "recv", "fmap.out" => need (e.site == "cons0") "recv-out"; st .cRecv (some e.val)
   | "recvc", "fmap.out" => need (e.site == "cons0") "recvc-out"; st .cRecv none
   | "close", "fmap.out" => need (e.site == "fmap#0") "close-out"; st .fClose none
+  -- lock-step environment: the consumer acknowledges every result to the producer on "ack" (environment-internal)
+  | "xfer", "ack" => need (e.site == "cons0" && e.site2 == "prod0") "ack"; pure (s, false)
   | "make", _ => need (e.site == "main") "make-by-the-emitted-code"; pure (s, false)  -- result channels of a channel-valued f
   | _, _ => throw s!"unknown-event:{e.kind}:{e.ch}"
 
@@ -325,7 +327,7 @@ def joinselEv (c : JoinSelect.Cfg) (s : JoinSelect.State) (e : Ev) : R (JoinSele
     pure (s', true)
   match e.kind, e.ch with
   | "make", "joinsel.out" => need (e.val == 0) "make-out-is-not-unbuffered"; pure (s, false)
-  | "go", _ => envGo e ["prod", "joinsel#0", "cons0"]; pure (s, false)
+  | "go", _ => envGo e ["prod", "rr", "joinsel#0", "cons0"]; pure (s, false)
   | "xfer", "joinsel.out" => need (e.site == "joinsel#0" && e.site2 == "cons0") "xfer-out"; st .cTake (some e.val)
   | "recvc", "joinsel.out" => need (e.site == "cons0") "recvc-out"; st .cSeeClose none
   | "close", "joinsel.out" => need (e.site == "joinsel#0") "close-out"; st .sClose none
@@ -338,9 +340,9 @@ def joinselEv (c : JoinSelect.Cfg) (s : JoinSelect.State) (e : Ev) : R (JoinSele
     | some i =>
       match k with
       | "make" => need (i < c.n && e.val == c.cap i) "make-in"; pure (s, false)
-      | "send" => need (e.site == s!"prod{i}" && (s.ch i).cap > 0) "send-in"; st (.pSend i) (some e.val)
-      | "xfer" => need (e.site == s!"prod{i}" && e.site2 == "joinsel#0" && (s.ch i).cap == 0) "xfer-in"; st (.pSend i) (some e.val)
-      | "close" => need (e.site == s!"prod{i}") "close-in"; st (.pClose i) none
+      | "send" => need ((e.site == s!"prod{i}" || e.site == "rr") && (s.ch i).cap > 0) "send-in"; st (.pSend i) (some e.val)
+      | "xfer" => need ((e.site == s!"prod{i}" || e.site == "rr") && e.site2 == "joinsel#0" && (s.ch i).cap == 0) "xfer-in"; st (.pSend i) (some e.val)
+      | "close" => need (e.site == s!"prod{i}" || e.site == "rr") "close-in"; st (.pClose i) none
       | "recv" => need (e.site == "joinsel#0") "recv-in"; st (.sRecv i) (some e.val)
       | "recvc" => need (e.site == "joinsel#0") "recvc-in"; st (.sRecv i) none
       | _ => throw s!"unknown-event:{k}:{ch}"
